@@ -1,13 +1,19 @@
 #!/bin/bash
-# usage: try_seeded.sh <patch.diff> <PID> [tier]   -- apply a seeded change to /repo, run the check, undo it
+# usage: try_seeded.sh <patch.diff> <PID> [tier]
+# Runs check <PID> against a scratch worktree of /repo with the seeded change applied (PYTHONPATH puts the worktree's
+# src first, so the drivers import the changed torchphysics; /repo itself stays untouched, which matters while
+# background runs use it).  Evidence of these runs goes to a scratch directory, not to /verif/evidence.
+# Equivalent by hand: git -C /repo apply <patch>; ./check <PID>; git -C /repo checkout -- .
 set -u
-patch=$1; pid=$2; tier=${3:-quick}
-cd /repo || exit 2
-if ! git diff --quiet; then echo "repo not clean"; exit 2; fi
-git apply "$patch" || { echo "patch does not apply"; exit 2; }
-cd /verif && ./check "$pid" --tier "$tier" > /tmp/try_seeded_$pid.log 2>&1
+patch=$(readlink -f "$1"); pid=$2; tier=${3:-quick}
+wt=$(mktemp -d -u /tmp/tryseed-XXXXXX)
+git -C /repo worktree add -q "$wt" HEAD || exit 2
+trap 'git -C /repo worktree remove --force "$wt"; rm -rf "$wt" "$ev"' EXIT
+ev=$(mktemp -d /tmp/tryseed-ev-XXXXXX)
+git -C "$wt" apply "$patch" || { echo "patch does not apply"; exit 2; }
+log=/tmp/try_seeded_${pid}_$$.log
+cd /verif && PYTHONPATH="$wt/src" VERIF_EVIDENCE_DIR="$ev" ./check "$pid" --tier "$tier" > "$log" 2>&1
 rc=$?
-git -C /repo checkout -- .
-grep -E "^VIOLATION|KNOWN-FINDING|rejections by|MACHINERY" /tmp/try_seeded_$pid.log | cut -c1-220 | head -8
-tail -1 /tmp/try_seeded_$pid.log
-echo "rc=$rc"
+grep -E "^VIOLATION|KNOWN-FINDING|rejections by|MACHINERY" "$log" | cut -c1-220 | head -8
+tail -1 "$log"
+echo "rc=$rc log=$log"
